@@ -1,5 +1,8 @@
 #!/bin/bash
 # usage: tools/confirm_seeded.sh <name> ...   (name = dir under /tmp/seeded_out, e.g. C04_1)
+# Development-time tool, kept as a record of how each seeded change was confirmed: it reads the sub-agents' scratch directory
+# /tmp/seeded_out (candidate patches, demos and run_suite.py = the pinned pytest command of /root/.vp/BASELINE.json with OMP threads
+# limited), which was removed when the rounds were over.  No registered command uses it.
 # Confirms in a scratch worktree: patch applies, demo fails with it, pinned suite still passes, demo passes without it.
 # On success copies patch.diff, demo.py, meta.json (+ what was run) to /verif/seeded/<name>/.
 WT=/tmp/wtc/confirm_$$; mkdir -p /tmp/wtc
